@@ -274,8 +274,8 @@ theorem exec_withZone (W : Work L Z R) (zr : Routine) (ref f tmp : P) (k : Z →
     | none => rfl
     | some rc => simp only []; rw [exec_writeZone _ _ _ _ _ htmp]
 
-theorem rg_withZone (W : Work L Z R) (hrt : ∀ z, W.parse (W.render z) = .ok z)
-    (w : World P L) (l : Loc P R) (zr : Routine) (ref : P) (k : Z → Prog P L R)
+theorem rg_withZone (W : Work L Z R) (zr : Routine) (hrt : ∀ rc, W.parse (W.render (W.compute zr rc)) = .ok (W.compute zr rc))
+    (w : World P L) (l : Loc P R) (ref : P) (k : Z → Prog P L R)
     (hs : Sep w l) (href : w.isInput ref)
     (hpub : w.pub = (w.fs₀ ref).map (fun rc => W.render (W.compute zr rc)))
     (htmp : w.fs₀ l.tmp = none)
